@@ -19,6 +19,9 @@ def handle (fn : String) (args : List Json) : String :=
   | "is_valid" => match args with
     | [a0] => (do let x0 ← Wire.decStr a0; pure (Wire.respondWith Wire.encBool (Gen.eu_nace.is_valid x0)) : Option String).getD "badargs"
     | _ => "badargs"
+  | "label" => match args with
+    | [a0] => (do let x0 ← Wire.decStr a0; pure (Wire.respondWith Wire.encStr (Gen.eu_nace.label x0)) : Option String).getD "badargs"
+    | _ => "badargs"
   | "validate" => match args with
     | [a0] => (do let x0 ← Wire.decStr a0; pure (Wire.respondWith Wire.encStr (Gen.eu_nace.validate x0)) : Option String).getD "badargs"
     | _ => "badargs"
